@@ -75,14 +75,14 @@ pub fn check_validity_for_reuse_statistic(
         ILLEGAL_GLOBAL_STATISTIC_PARAMS_ERROR,
     )?;
     let parent_bucket_length_in_ms = parent_interval_ms / parent_sample_count;
+        proof { lemma_div_pos(parent_interval_ms as int, parent_sample_count as int); }
 
     //SlidingWindowMetric's intervalInMs is not divisible by BucketLeapArray's intervalInMs
     if parent_interval_ms % interval_ms != 0 {
         return Err(Error::msg(GLOBAL_STATISTIC_NON_REUSABLE_ERROR));
     }
     // BucketLeapArray's BucketLengthInMs is not divisible by SlidingWindowMetric's BucketLengthInMs
-    proof { lemma_div_pos(parent_interval_ms as int, parent_sample_count as int); }
-        if bucket_length_in_ms % parent_bucket_length_in_ms != 0 {
+    if bucket_length_in_ms % parent_bucket_length_in_ms != 0 {
         return Err(Error::msg(GLOBAL_STATISTIC_NON_REUSABLE_ERROR));
     }
     Ok(())
@@ -398,6 +398,60 @@ pub proof fn lemma_range_count(e: int, im: int, len: int, q: int)
         assert(0 <= j < q) by(nonlinear_arith) requires e - s == j * len, 0 <= e - s, e - s <= q * len - len, len > 0;
         vstd::arithmetic::div_mod::lemma_fundamental_div_mod_converse(e - s, len, j, 0);
     }
+}
+
+// ---- extracted: the configuration entity's own check (C17: what init accepts is exactly what the node can serve) ----
+// The nested configuration structs are stand-ins reduced to the fields `check` reads; StatConfig is extracted.
+#[verifier::external_body] pub struct Text { _p: u8 }
+impl Text {
+    pub uninterp spec fn empty(&self) -> bool;
+    #[verifier::external_body] pub fn is_empty(&self) -> (r: bool) ensures r == self.empty() { unimplemented!() }
+}
+pub struct AppConfig { pub app_name: Text }
+pub struct MetricLogConfig { pub single_file_max_size: u64, pub max_file_count: usize }
+pub struct LogConfig { pub metric: MetricLogConfig }
+// ---- extracted from core/config/entity.rs (extract-struct) ----
+pub struct StatConfig {
+    pub sample_count_total: u32,
+    pub interval_ms_total: u32,
+    pub sample_count: u32,
+    pub interval_ms: u32,
+}
+
+pub struct SentinelConfig { pub app: AppConfig, pub log: LogConfig, pub stat: StatConfig }
+pub struct ConfigEntity { pub version: Text, pub config: SentinelConfig }
+
+impl ConfigEntity {
+// ---- extracted from core/config/entity.rs (extract-fn) ----
+    pub fn check(&self) -> (r: Result<()>)
+    ensures
+        r.is_ok() == (!self.version.empty() && !self.config.app.app_name.empty() && self.config.log.metric.max_file_count != 0 && self.config.log.metric.single_file_max_size != 0 && reusable(self.config.stat.sample_count, self.config.stat.interval_ms, self.config.stat.sample_count_total, self.config.stat.interval_ms_total)),
+{
+        if self.version.is_empty() {
+            return Err(Error::msg("empty version"));
+        }
+        if self.config.app.app_name.is_empty() {
+            return Err(Error::msg("empty app name"));
+        }
+        if self.config.log.metric.max_file_count == 0 {
+            return Err(Error::msg(
+                "illegal metric log configuration: max_file_count < 0",
+            ));
+        }
+        if self.config.log.metric.single_file_max_size == 0 {
+            return Err(Error::msg(
+                "illegal metric log configuration: single_file_max_size < 0",
+            ));
+        }
+        check_validity_for_reuse_statistic(
+            self.config.stat.sample_count,
+            self.config.stat.interval_ms,
+            self.config.stat.sample_count_total,
+            self.config.stat.interval_ms_total,
+        )?;
+        Ok(())
+    }
+
 }
 
 // vacuity canary: must FAIL (if it verifies, an axiom or contract above is contradictory)
